@@ -149,6 +149,63 @@ func runC17(r *core.Run) {
 			}
 		}, checkSketch)
 
+	// Many sequences in one call: a Sequences that treats a long argument list differently (worker shares,
+	// batches, a pre-sized table) goes wrong only from some count on, and only for some remainders.
+	type c17Many struct {
+		Count int `json:"sequences"`
+		K     int `json:"k"`
+		N     int `json:"n"`
+	}
+	manyHi := core.Pick(r, 300, 1100)
+	r.Bound("many-sequences", fmt.Sprintf("EVERY number of sequences 0..%d in one Sequences call (distinct 9-base sequences, position-dependent) x k in {3,9} x n in {4, 64, 100000}", manyHi))
+	core.Clause(r, "many-sequences", core.Opts{Rule: "Sequences(n,k, s_1..s_c) for every count c of the range: View() == bottom-n reference == the same list in reverse order == the sketch built by c Add calls; non-trivial = c >= 2"},
+		func(emit func(c17Many) bool) {
+			for c := 0; c <= manyHi; c++ {
+				for _, k := range []int{3, 9} {
+					for _, n := range []int{4, 64, 100000} {
+						if !emit(c17Many{c, k, n}) {
+							return
+						}
+					}
+				}
+			}
+		},
+		func(c c17Many) core.Outcome {
+			seqs := make([][]byte, c.Count)
+			for i := range seqs {
+				b := make([]byte, 9)
+				x := i*2654435761 + 12345
+				for j := range b {
+					b[j] = "ACGT"[(x>>(2*j))&3]
+				}
+				seqs[i] = b
+			}
+			want := ref.BottomN(ref.CanonicalKmerHashes(c.K, mash.Seed, seqs...), c.N)
+			var all, rev, inc []uint64
+			if p := catch(func() {
+				all = slices.Clone(mash.Sequences(c.N, c.K, seqs...).View())
+				r2 := slices.Clone(seqs)
+				slices.Reverse(r2)
+				rev = slices.Clone(mash.Sequences(c.N, c.K, r2...).View())
+				mh := mash.Sequences(c.N, c.K)
+				for _, s := range seqs {
+					mash.Add(mh, c.K, s)
+				}
+				inc = slices.Clone(mh.View())
+			}); p != "" {
+				return core.Failf("%d sequences, k=%d, n=%d: panic: %s", c.Count, c.K, c.N, p)
+			}
+			for _, v := range []struct {
+				how string
+				got []uint64
+			}{{"Sequences on the whole list", all}, {"Sequences on the reversed list", rev}, {"one Add per sequence", inc}} {
+				if !slices.Equal(v.got, want) {
+					return core.Failf("%d sequences of 9 bases, k=%d, n=%d: %s gives a sketch of %d values that differs from the %d smallest distinct canonical k-mer hashes (first values %v, want %v)", c.Count, c.K, c.N, v.how, len(v.got), len(want), headU(v.got, 3), headU(want, 3))
+				}
+			}
+			return core.Outcome{Class: fmt.Sprint("full=", len(want) == c.N), Nontrivial: c.Count >= 2, Evals: 3}
+		})
+
 	vpool := [][]string{{"ACGTA"}, {"AAC", "GTT"}, {"ACG", "T", "CCAT"}, {"GATTACA"}, {"AC", "CA", "AC"}, {"TTTT", "AAAA"}, {"ACGT", "TGCA", "N"}, {"CAGT", "AG"}}
 	r.Bound("variants", fmt.Sprintf("%d base inputs %v x k in {1,2,3} x n in {2,3,8}: every subset of sequences reverse-complemented, every case mask of every sequence of length <= 4 (else 16 masks), every permutation, every partition of the list into successive calls (Adds onto minhash.New(n), onto an empty Sequences(n,k), and Sequences(n,k, first group) continued with Add), every n' < n", len(vpool), vpool))
 	core.Clause(r, "variants", core.Opts{Rule: "for each base input every strand / case / order / partition variant is built on real sketches and must give the same View(); Add-built sketches must equal Sequences-built ones; a smaller sketch is the tail of a larger one; non-trivial = all"},
@@ -759,4 +816,11 @@ func runC17(r *core.Run) {
 			return core.Outcome{Class: cl, Nontrivial: true, Evals: len(js)}
 		})
 	_ = strings.ToUpper
+}
+
+func headU(v []uint64, n int) []uint64 {
+	if len(v) > n {
+		return v[:n]
+	}
+	return v
 }
